@@ -302,7 +302,15 @@ Definition pow_units (env : uenv) (u : uc) (p : Qc) : res uc :=
   else if negb (is_mult env u) then Err EOffset
   else Ok (uc_pow u p).
 
-Definition run_special (env : uenv) (impl name : string) (la : largs) (extras : list (string * Qc)) : res pattern :=
+(** * Defect switches (DESIGN 2.6): deviations that were repaired in /repo by a fix: commit stay
+    available behind a boolean, all false in [repaired]; the harness replays each witness on the
+    implementation and runs the correspondence with the value that reproduces it. *)
+Record quirks := Quirks {
+  q_unwrap_rejects_period : bool;   (* F122: _unwrap(p, discont, axis) had no period keyword -> TypeError *)
+}.
+Definition repaired : quirks := Quirks false.
+
+Definition run_special_q (q : quirks) (env : uenv) (impl name : string) (la : largs) (extras : list (string * Qc)) : res pattern :=
   let g := lget la in
   if String.eqb impl "_modf" then
     do w <- uwc env (opt_list (g "x")); Ok (PAll w)
@@ -365,17 +373,16 @@ Definition run_special (env : uenv) (impl name : string) (la : largs) (extras : 
     | _ => Err EOther
     end
   else if String.eqb impl "_unwrap" then
-    (* _unwrap(p, discont=None, axis=-1): NumPy's keyword [period] is not accepted (TypeError);
-       [discont] is handed to NumPy as it is, next to the magnitude of p in radians *)
-    match g "period" with
-    | Some _ => Err EType
-    | None =>
+    (* _unwrap(p, discont=None, axis=-1, *, period=2 pi): p is unwrapped in radians; a Quantity
+       period / discont is converted to radians (bare values are radians already).  Before the
+       repair of F122 the keyword period was not accepted at all (TypeError). *)
+    let to_rad (a : option arg) : res unit :=
+      match a with Some (A1 (SQ e)) => convert_q env e (unit_of_str "rad") | _ => Ok tt end in
+    match g "period", q_unwrap_rejects_period q with
+    | Some _, true => Err EType
+    | _, _ =>
+        do_ to_rad (g "period"); do_ to_rad (g "discont");
         do u <- qty_units (g "p"); do_ convert_q env u (unit_of_str "rad");
-        (* a Quantity discont meets bare radians inside NumPy's comparisons and subtractions *)
-        do_ match g "discont" with
-            | Some (A1 (SQ e)) => if dimensionless env e then Ok tt else Err EDim
-            | _ => Ok tt
-            end;
         Ok (PAll (Some u))
     end
   else if String.eqb impl "_copyto" then
@@ -458,6 +465,7 @@ Definition run_special (env : uenv) (impl name : string) (la : largs) (extras : 
   else if String.eqb impl "implement_single_dimensionless_argument_func" then
     do u <- qty_units (g "a"); do_ convert_q env u ∅; Ok (PAll (Some ∅))
   else Err EOther.
+Definition run_special := run_special_q repaired.
 (** the python functions mirrored by [run_special]; tied to the source by [specials_tie] *)
 Definition modelled_specials : list string :=
   ["_modf"; "_frexp"; "_power"; "_add"; "_subtract"; "_meshgrid"; "_full_like"; "_interp";
